@@ -228,3 +228,92 @@ def search(ctx, broken, corr):
 
 def classify(ctx, failure):
     return None
+
+
+# ---------------------------------------------------------------------------
+# stream 3: AdjEnvelope state machine (Model/EnvState.lean) against the real object:
+# discrete state through GamaVerifProbe after every call + numeric answers
+DRIVERS = ["drv_mtf", "drv_envstate"]
+
+
+def gen_env_history(rng, maxlen):
+    while True:
+        p = g.gen_problem(rng, rng.choice(["levelling", "levelling", "levelling", "dense"]), correlated=rng.random() < 0.3)
+        if p["n"] >= 2:
+            break
+    subs = [S for S, ok in g.gen_subsets(rng, p, 4) if ok and len(S) >= max(1, p["defect"])]
+    init = rng.choice([None, "all"] + subs)
+    ops = g.problem_lines(p, init) + ["new env solver", "envinfo", "state"]
+    n, m = p["n"], p["m"]
+    keys = [rng.randint(1, n) for _ in range(rng.randint(2, 6))]
+    okeys = [rng.randint(1, m) for _ in range(rng.randint(1, 4))]
+    qs = []
+    for _ in range(rng.randint(1, maxlen)):
+        r = rng.random()
+        if r < 0.10:
+            q = "x"
+        elif r < 0.15:
+            q = "r"
+        elif r < 0.19:
+            q = "rtr"
+        elif r < 0.23:
+            q = "defect"
+        elif r < 0.50:
+            q = "qxx %d %d" % (rng.choice(keys), rng.choice(keys))
+        elif r < 0.68:
+            q = "q0xx %d %d" % (rng.choice(keys), rng.choice(keys))
+        elif r < 0.78:
+            q = "qbb %d %d" % (rng.choice(okeys), rng.choice(okeys))
+        elif r < 0.82:
+            q = "lindep %d" % rng.choice(keys)
+        elif r < 0.90:
+            S = rng.choice(subs)
+            q = "min_x %d %s" % (len(S), " ".join(map(str, S)))
+        elif r < 0.94:
+            q = "min_x_all"
+        else:
+            q = "reset"
+        qs.append(q)
+    lines = []
+    for q in qs:
+        lines.append(q)
+        lines.append("state")
+        if not q.startswith(CONFIG_OPS):
+            lines.append("fresh " + q)
+    return p, ops, qs, lines
+
+
+def run_env_state(ctx, corr, exe, n, maxlen):
+    gens = [gen_env_history(ctx.rng, maxlen) for _ in range(n)]
+    cases = [ops + lines for (_, ops, _, lines) in gens]
+    impl, crashes = run_cases(exe, cases, timeout=1800)
+    # second phase: hand the implementation's envinfo facts to the model
+    mcases = []
+    for c, o in zip(cases, impl):
+        info = next((l for l in o if l.startswith("envinfo ")), None)
+        mcases.append([(info if (l == "envinfo" and info) else l) for l in c])
+    model, _ = run_cases(ctx.driver("drv_envstate"), mcases, timeout=1800)
+    for i, (p, ops, qs, lines) in enumerate(gens):
+        nontrivial = p["defect"] > 0 and len(set(q for q in qs if q.startswith(("qxx", "q0xx")))) >= 3
+        corr.case(key=" ".join(ops + qs) if nontrivial else None,
+                  sample={"env_history": qs[:12], "impl": impl[i][2:14], "model": model[i][2:14]} if i < 1 else None)
+        corr.count("env_hist")
+        corr.count("env_hist_singular" if p["defect"] else "env_hist_regular")
+        if i in crashes:
+            corr.fail("history crashes AdjEnvelope (sanitizer / abort)", {"stream": "envstate", "ops": cases[i]},
+                      "env/solver", crashes[i][1])
+            continue
+        a, b = impl[i], model[i]
+        if len(a) != len(b) or not all(lines_equal(x, y, rtol=1e-8, atol=1e-9) for x, y in zip(a, b)):
+            k = next((j for j, (x, y) in enumerate(zip(a, b)) if not lines_equal(x, y, rtol=1e-8, atol=1e-9)), min(len(a), len(b)))
+            corr.disagree("envstate", cases[i], a[max(0, k - 2):k + 2], b[max(0, k - 2):k + 2], f"first difference at output line {k}")
+        corr.count("env_cache_evictions", sum(1 for l in a if l.startswith("st ") and len(l.split("keys")[1].split()) == 3))
+
+
+_hist_correspond = correspond
+
+
+def correspond(ctx, corr):          # noqa: F811
+    _hist_correspond(ctx, corr)
+    exe = adj_harness(ctx)
+    run_env_state(ctx, corr, exe, ctx.size(200, 6000), ctx.size(25, 100))
